@@ -37,9 +37,14 @@ _pkg_path_values := ast.package_path if {
 _pkg_path_values := without_test_suffix if {
 	config.for_rule("idiomatic", "directory-package-mismatch")["exclude-test-suffix"]
 
+	# a last component that is nothing but the suffix (package foo._test) names no directory of its own:
+	# the fixer places such a file in foo/, and a directory with an empty name could never be matched
 	without_test_suffix := array.concat(
 		array.slice(ast.package_path, 0, count(ast.package_path) - 1),
-		[trim_suffix(regal.last(ast.package_path), "_test")],
+		[name |
+			name := trim_suffix(regal.last(ast.package_path), "_test")
+			name != ""
+		],
 	)
 }
 
